@@ -326,6 +326,191 @@ Section Vectors.
   Qed.
 End Vectors.
 
+(* ---------- the sense of the scan angles (yaw = 0) ---------- *)
+Lemma rod_across nx ny nz kx ky kz t :
+  dot3 (rodrigues_x nx ny nz kx ky kz t) (rodrigues_y nx ny nz kx ky kz t) (rodrigues_z nx ny nz kx ky kz t)
+       (cross_x nx ny nz kx ky kz) (cross_y nx ny nz kx ky kz) (cross_z nx ny nz kx ky kz)
+  = - sin t * dot3 (cross_x nx ny nz kx ky kz) (cross_y nx ny nz kx ky kz) (cross_z nx ny nz kx ky kz)
+                   (cross_x nx ny nz kx ky kz) (cross_y nx ny nz kx ky kz) (cross_z nx ny nz kx ky kz).
+Proof. unfold rodrigues_x, rodrigues_y, rodrigues_z, dot3, cross_x, cross_y, cross_z. ring. Qed.
+
+Lemma rod_along nx ny nz kx ky kz yx yy yz N M a b :
+  nx*nx+ny*ny+nz*nz = 1 -> kx*kx+ky*ky+kz*kz = 1 ->
+  M * yx = N * cross_x nx ny nz kx ky kz -> M * yy = N * cross_y nx ny nz kx ky kz ->
+  M * yz = N * cross_z nx ny nz kx ky kz ->
+  M * M = N * N * dot3 (cross_x nx ny nz kx ky kz) (cross_y nx ny nz kx ky kz) (cross_z nx ny nz kx ky kz)
+                   (cross_x nx ny nz kx ky kz) (cross_y nx ny nz kx ky kz) (cross_z nx ny nz kx ky kz) ->
+  M <> 0 ->
+  let r1x := rodrigues_x nx ny nz kx ky kz a in
+  let r1y := rodrigues_y nx ny nz kx ky kz a in
+  let r1z := rodrigues_z nx ny nz kx ky kz a in
+  dot3 (rodrigues_x r1x r1y r1z yx yy yz b) (rodrigues_y r1x r1y r1z yx yy yz b) (rodrigues_z r1x r1y r1z yx yy yz b)
+       (N * kx) (N * ky) (N * kz)
+  = N * dot3 nx ny nz kx ky kz * cos b + M * cos a * sin b.
+Proof.
+  intros Hn Hk Hx Hy Hz HM HM0. cbv zeta.
+  apply Rmult_eq_reg_l with (M * M); [|nra].
+  unfold rodrigues_x, rodrigues_y, rodrigues_z, dot3, cross_x, cross_y, cross_z in *.
+  pose proof (sin2_cos2 a) as Ha. unfold Rsqr in Ha.
+  set (sa := sin a) in *. set (ca := cos a) in *. set (sb := sin b) in *. set (cb := cos b) in *.
+  clearbody sa ca sb cb.
+  nsatz.
+Qed.
+
+Lemma qrotate_unit_axis vx vy vz ax ay az t :
+  norm3 ax ay az = 1 ->
+  gen_qrotate_x vx vy vz ax ay az t = rodrigues_x vx vy vz ax ay az (- t) /\
+  gen_qrotate_y vx vy vz ax ay az t = rodrigues_y vx vy vz ax ay az (- t) /\
+  gen_qrotate_z vx vy vz ax ay az t = rodrigues_z vx vy vz ax ay az (- t).
+Proof.
+  intros H1.
+  assert (Ha : nonzero3 ax ay az).
+  { intros (E1 & E2 & E3). unfold norm3 in H1. rewrite E1, E2, E3 in H1.
+    replace (0 * 0 + 0 * 0 + 0 * 0) with 0 in H1 by ring. rewrite sqrt_0 in H1. lra. }
+  destruct (qrotate_is_rodrigues vx vy vz ax ay az t Ha) as (E1 & E2 & E3).
+  unfold cw_rot_x, cw_rot_y, cw_rot_z in *. cbv zeta in *. rewrite H1 in *.
+  unfold Rdiv in *. rewrite Rinv_1, !Rmult_1_r in *. auto.
+Qed.
+
+Lemma norm3_1_sq a b c : norm3 a b c = 1 -> a * a + b * b + c * c = 1.
+Proof.
+  intros H. unfold norm3 in H.
+  assert (Hp : 0 <= a * a + b * b + c * c) by nra.
+  rewrite <- (sqrt_sqrt _ Hp), H. ring.
+Qed.
+
+Section Sense.
+  Variables px py ux uy uz lat : R.
+  Let nx := gen_vec_nadir_x px py lat.
+  Let ny := gen_vec_nadir_y px py lat.
+  Let nz := gen_vec_nadir_z px py lat.
+  Let cx := cross_x nx ny nz ux uy uz.
+  Let cy := cross_y nx ny nz ux uy uz.
+  Let cz := cross_z nx ny nz ux uy uz.
+  Hypothesis Hvel : nonzero3 ux uy uz.
+  Hypothesis Hcross : nonzero3 cx cy cz.
+
+  Let N := norm3 ux uy uz.
+  Let M := norm3 cx cy cz.
+  Let kx := ux / N. Let ky := uy / N. Let kz := uz / N.
+  Let yx := cx / M. Let yy := cy / M. Let yz := cz / M.
+
+  Lemma sense_facts :
+    N <> 0 /\ M <> 0 /\ nx * nx + ny * ny + nz * nz = 1 /\ kx * kx + ky * ky + kz * kz = 1 /\
+    norm3 kx ky kz = 1 /\ norm3 yx yy yz = 1 /\
+    (ux = N * kx /\ uy = N * ky /\ uz = N * kz) /\
+    (cx = N * cross_x nx ny nz kx ky kz /\ cy = N * cross_y nx ny nz kx ky kz /\ cz = N * cross_z nx ny nz kx ky kz) /\
+    M * M = cx * cx + cy * cy + cz * cz.
+  Proof.
+    destruct (unit_axis ux uy uz Hvel) as [HN Hk]. fold N in HN, Hk. fold kx ky kz in Hk.
+    destruct (unit_axis cx cy cz Hcross) as [HM _]. fold M in HM.
+    assert (Hu : ux = N * kx /\ uy = N * ky /\ uz = N * kz)
+      by (unfold kx, ky, kz; repeat split; field; exact HN).
+    destruct Hu as (U1 & U2 & U3).
+    repeat split; try assumption.
+    - apply norm3_1_sq. apply nadir_unit.
+    - apply (normalised_unit ux uy uz Hvel).
+    - apply (normalised_unit cx cy cz Hcross).
+    - unfold cx, cross_x. rewrite U2, U3 at 1. unfold cross_x. ring.
+    - unfold cy, cross_y. rewrite U1, U3 at 1. unfold cross_y. ring.
+    - unfold cz, cross_z. rewrite U1, U2 at 1. unfold cross_z. ring.
+    - unfold M, norm3. apply sqrt_sqrt. nra.
+  Qed.
+
+  Lemma rot1_rod f0 roll :
+    gen_vec_rot1_x px py ux uy uz lat f0 roll = rodrigues_x nx ny nz kx ky kz (- (f0 + roll)) /\
+    gen_vec_rot1_y px py ux uy uz lat f0 roll = rodrigues_y nx ny nz kx ky kz (- (f0 + roll)) /\
+    gen_vec_rot1_z px py ux uy uz lat f0 roll = rodrigues_z nx ny nz kx ky kz (- (f0 + roll)).
+  Proof.
+    destruct sense_facts as (_ & _ & _ & _ & Hk1 & _).
+    destruct (rot1_is_rot px py ux uy uz lat f0 roll) as (E1 & E2 & E3). cbv zeta in E1, E2, E3.
+    destruct (xaxis_is_normalised ux uy uz) as (X1 & X2 & X3).
+    rewrite E1, E2, E3, X1, X2, X3. fold N kx ky kz nx ny nz.
+    apply qrotate_unit_axis. exact Hk1.
+  Qed.
+
+  Lemma rot2_rod f0 f1 roll pitch :
+    let r1x := gen_vec_rot1_x px py ux uy uz lat f0 roll in
+    let r1y := gen_vec_rot1_y px py ux uy uz lat f0 roll in
+    let r1z := gen_vec_rot1_z px py ux uy uz lat f0 roll in
+    gen_vec_rot2_x px py ux uy uz lat f0 f1 roll pitch = rodrigues_x r1x r1y r1z yx yy yz (- (f1 + pitch)) /\
+    gen_vec_rot2_y px py ux uy uz lat f0 f1 roll pitch = rodrigues_y r1x r1y r1z yx yy yz (- (f1 + pitch)) /\
+    gen_vec_rot2_z px py ux uy uz lat f0 f1 roll pitch = rodrigues_z r1x r1y r1z yx yy yz (- (f1 + pitch)).
+  Proof.
+    cbv zeta. destruct sense_facts as (_ & _ & _ & _ & _ & Hy1 & _).
+    destruct (rot2_is_rot px py ux uy uz lat f0 f1 roll pitch) as (E1 & E2 & E3). cbv zeta in E1, E2, E3.
+    destruct (yaxis_is_normalised px py ux uy uz lat) as (Y1 & Y2 & Y3). cbv zeta in Y1, Y2, Y3.
+    rewrite E1, E2, E3, Y1, Y2, Y3. fold nx ny nz. fold cx cy cz. fold M. fold yx yy yz.
+    apply qrotate_unit_axis. exact Hy1.
+  Qed.
+
+  Lemma vectors_yaw0 f0 f1 roll pitch :
+    gen_vectors_x px py ux uy uz lat f0 f1 roll pitch 0 = gen_vec_rot2_x px py ux uy uz lat f0 f1 roll pitch /\
+    gen_vectors_y px py ux uy uz lat f0 f1 roll pitch 0 = gen_vec_rot2_y px py ux uy uz lat f0 f1 roll pitch /\
+    gen_vectors_z px py ux uy uz lat f0 f1 roll pitch 0 = gen_vec_rot2_z px py ux uy uz lat f0 f1 roll pitch.
+  Proof.
+    destruct (vectors_is_rot3 px py ux uy uz lat f0 f1 roll pitch 0) as (E1 & E2 & E3). cbv zeta in E1, E2, E3.
+    rewrite E1, E2, E3.
+    apply (proj1 (qrotate_identity _ _ _ _ _ _ (proj2 (nadir_unit px py lat)))).
+  Qed.
+
+  (* across track: the component of the view along nadir x vel (to the right of the velocity) *)
+  Theorem sense_across f0 f1 roll pitch :
+    dot3 (gen_vectors_x px py ux uy uz lat f0 f1 roll pitch 0) (gen_vectors_y px py ux uy uz lat f0 f1 roll pitch 0)
+         (gen_vectors_z px py ux uy uz lat f0 f1 roll pitch 0) cx cy cz
+    = sin (f0 + roll) * (cx * cx + cy * cy + cz * cz) / N.
+  Proof.
+    destruct sense_facts as (HN & HM & Hn & Hk & Hk1 & Hy1 & (U1 & U2 & U3) & (C1 & C2 & C3) & HMM).
+    destruct (vectors_yaw0 f0 f1 roll pitch) as (V1 & V2 & V3). rewrite V1, V2, V3.
+    (* rotation about the y axis keeps the component along it *)
+    destruct (rot2_is_rot px py ux uy uz lat f0 f1 roll pitch) as (E1 & E2 & E3). cbv zeta in E1, E2, E3.
+    assert (Hyn : nonzero3 (gen_vec_yaxis_x px py ux uy uz lat) (gen_vec_yaxis_y px py ux uy uz lat) (gen_vec_yaxis_z px py ux uy uz lat))
+      by (apply yaxis_nonzero; exact Hcross).
+    destruct (yaxis_is_normalised px py ux uy uz lat) as (Y1 & Y2 & Y3). cbv zeta in Y1, Y2, Y3.
+    fold nx ny nz in Y1, Y2, Y3. fold cx cy cz in Y1, Y2, Y3. fold M in Y1, Y2, Y3.
+    pose proof (qrotate_dot (gen_vec_rot1_x px py ux uy uz lat f0 roll) (gen_vec_rot1_y px py ux uy uz lat f0 roll)
+                  (gen_vec_rot1_z px py ux uy uz lat f0 roll)
+                  (gen_vec_yaxis_x px py ux uy uz lat) (gen_vec_yaxis_y px py ux uy uz lat) (gen_vec_yaxis_z px py ux uy uz lat)
+                  _ _ _ (f1 + pitch) Hyn) as Hd.
+    destruct (qrotate_axis_fixed 1 _ _ _ (f1 + pitch) Hyn) as (A1 & A2 & A3).
+    rewrite !Rmult_1_l in A1, A2, A3. rewrite A1, A2, A3 in Hd.
+    rewrite <- E1, <- E2, <- E3 in Hd. rewrite Y1, Y2, Y3 in Hd.
+    assert (Hc : forall a b c, dot3 a b c cx cy cz = M * dot3 a b c (cx / M) (cy / M) (cz / M))
+      by (intros; unfold dot3; field; exact HM).
+    rewrite Hc, Hd, <- Hc.
+    destruct (rot1_rod f0 roll) as (R1 & R2 & R3). rewrite R1, R2, R3.
+    rewrite C1, C2, C3.
+    replace (dot3 (rodrigues_x nx ny nz kx ky kz (- (f0 + roll))) (rodrigues_y nx ny nz kx ky kz (- (f0 + roll)))
+               (rodrigues_z nx ny nz kx ky kz (- (f0 + roll)))
+               (N * cross_x nx ny nz kx ky kz) (N * cross_y nx ny nz kx ky kz) (N * cross_z nx ny nz kx ky kz))
+      with (N * dot3 (rodrigues_x nx ny nz kx ky kz (- (f0 + roll))) (rodrigues_y nx ny nz kx ky kz (- (f0 + roll)))
+               (rodrigues_z nx ny nz kx ky kz (- (f0 + roll)))
+               (cross_x nx ny nz kx ky kz) (cross_y nx ny nz kx ky kz) (cross_z nx ny nz kx ky kz))
+      by (unfold dot3; ring).
+    rewrite rod_across, sin_neg. unfold dot3. field. exact HN.
+  Qed.
+
+  (* along track: the component of the view along the velocity *)
+  Theorem sense_along f0 f1 roll pitch :
+    dot3 (gen_vectors_x px py ux uy uz lat f0 f1 roll pitch 0) (gen_vectors_y px py ux uy uz lat f0 f1 roll pitch 0)
+         (gen_vectors_z px py ux uy uz lat f0 f1 roll pitch 0) ux uy uz
+    = dot3 nx ny nz ux uy uz * cos (f1 + pitch) - M * cos (f0 + roll) * sin (f1 + pitch).
+  Proof.
+    destruct sense_facts as (HN & HM & Hn & Hk & Hk1 & Hy1 & (U1 & U2 & U3) & (C1 & C2 & C3) & HMM).
+    destruct (vectors_yaw0 f0 f1 roll pitch) as (V1 & V2 & V3). rewrite V1, V2, V3.
+    destruct (rot2_rod f0 f1 roll pitch) as (E1 & E2 & E3). cbv zeta in E1, E2, E3. rewrite E1, E2, E3.
+    destruct (rot1_rod f0 roll) as (R1 & R2 & R3). rewrite R1, R2, R3.
+    rewrite U1, U2, U3.
+    rewrite (rod_along nx ny nz kx ky kz yx yy yz N M (- (f0 + roll)) (- (f1 + pitch)) Hn Hk).
+    - rewrite cos_neg, cos_neg, sin_neg. unfold dot3. ring.
+    - unfold yx. rewrite <- C1. field. exact HM.
+    - unfold yy. rewrite <- C2. field. exact HM.
+    - unfold yz. rewrite <- C3. field. exact HM.
+    - rewrite HMM, C1, C2, C3. unfold dot3. ring.
+    - exact HM.
+  Qed.
+End Sense.
+
 (* C07_attitude_adds: roll and pitch enter only through fovs[0] + roll and fovs[1] + pitch *)
 Theorem vectors_attitude_adds px py ux uy uz lat f0 f1 roll pitch yaw :
   gen_vectors_x px py ux uy uz lat f0 f1 roll pitch yaw = gen_vectors_x px py ux uy uz lat (f0 + roll) (f1 + pitch) 0 0 yaw /\
@@ -527,4 +712,49 @@ Proof.
   split; [lra|]. split; [lra|]. split; [lra|]. split; [lra|]. split.
   - unfold nonzero3. intros (_ & H & _). lra.
   - exact demo_settles.
+Qed.
+
+Lemma c07_sense_signs : forall px py ux uy uz lat f0 f1 roll pitch,
+  let nx := gen_vec_nadir_x px py lat in let ny := gen_vec_nadir_y px py lat in
+  let nz := gen_vec_nadir_z px py lat in
+  let cx := cross_x nx ny nz ux uy uz in let cy := cross_y nx ny nz ux uy uz in
+  let cz := cross_z nx ny nz ux uy uz in
+  let wx := gen_vectors_x px py ux uy uz lat f0 f1 roll pitch 0 in
+  let wy := gen_vectors_y px py ux uy uz lat f0 f1 roll pitch 0 in
+  let wz := gen_vectors_z px py ux uy uz lat f0 f1 roll pitch 0 in
+  nonzero3 ux uy uz -> nonzero3 cx cy cz ->
+  (0 < f0 + roll < PI -> 0 < dot3 wx wy wz cx cy cz) /\
+  (- PI < f0 + roll < 0 -> dot3 wx wy wz cx cy cz < 0) /\
+  (- PI / 2 < f0 + roll < PI / 2 -> 0 < f1 + pitch < PI ->
+     dot3 wx wy wz ux uy uz < dot3 nx ny nz ux uy uz * cos (f1 + pitch)) /\
+  (- PI / 2 < f0 + roll < PI / 2 -> - PI < f1 + pitch < 0 ->
+     dot3 nx ny nz ux uy uz * cos (f1 + pitch) < dot3 wx wy wz ux uy uz).
+Proof.
+  intros px py ux uy uz lat f0 f1 roll pitch nx ny nz cx cy cz wx wy wz Hvel Hcross.
+  pose proof (sense_across px py ux uy uz lat Hvel Hcross f0 f1 roll pitch) as HA.
+  pose proof (sense_along px py ux uy uz lat Hvel Hcross f0 f1 roll pitch) as HL.
+  fold nx ny nz in HA, HL. fold cx cy cz in HA, HL. fold wx wy wz in HA, HL.
+  pose proof (nonzero3_pos _ _ _ Hvel) as Hu. pose proof (nonzero3_pos _ _ _ Hcross) as Hc.
+  assert (HN : 0 < norm3 ux uy uz) by (apply sqrt_lt_R0; exact Hu).
+  assert (HM : 0 < norm3 cx cy cz) by (apply sqrt_lt_R0; exact Hc).
+  assert (HK : 0 < (cx * cx + cy * cy + cz * cz) / norm3 ux uy uz)
+    by (apply Rmult_lt_0_compat; [exact Hc|apply Rinv_0_lt_compat; exact HN]).
+  replace (sin (f0 + roll) * (cx * cx + cy * cy + cz * cz) / norm3 ux uy uz)
+    with (sin (f0 + roll) * ((cx * cx + cy * cy + cz * cz) / norm3 ux uy uz)) in HA by (field; lra).
+  repeat split.
+  - intros [H0 H1]. rewrite HA. apply Rmult_lt_0_compat; [apply sin_gt_0; assumption|exact HK].
+  - intros [H0 H1]. rewrite HA.
+    assert (Hs : sin (f0 + roll) < 0) by (apply sin_lt_0_var; lra).
+    nra.
+  - intros [H0 H1] [H2 H3]. rewrite HL.
+    assert (Hc1 : 0 < cos (f0 + roll)) by (apply cos_gt_0; lra).
+    assert (Hs2 : 0 < sin (f1 + pitch)) by (apply sin_gt_0; lra).
+    assert (0 < norm3 cx cy cz * cos (f0 + roll) * sin (f1 + pitch))
+      by (apply Rmult_lt_0_compat; [apply Rmult_lt_0_compat|]; assumption).
+    lra.
+  - intros [H0 H1] [H2 H3]. rewrite HL.
+    assert (Hc1 : 0 < cos (f0 + roll)) by (apply cos_gt_0; lra).
+    assert (Hs2 : sin (f1 + pitch) < 0) by (apply sin_lt_0_var; lra).
+    assert (0 < norm3 cx cy cz * cos (f0 + roll)) by (apply Rmult_lt_0_compat; assumption).
+    nra.
 Qed.
